@@ -94,19 +94,23 @@ Theorem C06_eject_z_loop_invariant : forall (G M : Type) (mul : M -> M -> M) (on
   (forall a b c, mul a (mul b c) = mul (mul a b) c) -> (forall a, mul one a = a) -> (forall a, mul a one = a) ->
   forall (zden : nat -> Z -> M) (gden : G -> list nat -> list Z -> M) (sden : G -> nat -> nat -> M) (mden oden : G -> list nat -> M)
          (period : Z) (allq : list nat), NoDup allq ->
-  (forall q k, (k mod period)%Z = 0%Z -> zden q k = one) ->
+  (forall q, zden q 0%Z = one) -> (forall q k, (k mod period)%Z = 0%Z -> zden q k = one) ->
   (forall q p p', zden q (p + p')%Z = mul (zden q p) (zden q p')) ->
   (forall q q' p p', q <> q' -> mul (zden q p) (zden q' p') = mul (zden q' p') (zden q p)) ->
   (forall g qs ph, mul (gden g qs (map (fun _ => 0%Z) qs)) (Phi M mul one zden allq ph) = mul (Phi M mul one zden allq ph) (gden g qs (map ph qs))) ->
   (forall g a b ph, mul (sden g a b) (Phi M mul one zden allq ph) = mul (Phi M mul one zden allq (pswap ph a b)) (sden g a b)) ->
   (forall g qs ph, mul (mden g qs) (Phi M mul one zden allq ph) = mul (Phi M mul one zden allq (preset ph qs)) (mden g qs)) ->
   (forall g qs ph, (forall q, In q qs -> ph q = 0%Z) -> mul (oden g qs) (Phi M mul one zden allq ph) = mul (Phi M mul one zden allq ph) (oden g qs)) ->
-  forall l ph, Forall (wf G allq) l ->
-    mul (Phi M mul one zden allq (snd (loop period ph l))) (ocomp G M mul one zden gden sden mden oden (fst (loop period ph l)))
-    = mul (icomp G M mul one zden gden sden mden oden l) (Phi M mul one zden allq ph).
+  forall l (st : state G), Forall (wf G allq) l -> marks_ok G (st_mk G st) (st_out G st) ->
+    mul (Phi M mul one zden allq (st_ph G (loop period st l))) (ocomp G M mul one zden gden sden mden oden (st_out G (loop period st l)))
+    = mul (icomp G M mul one zden gden sden mden oden l) (mul (Phi M mul one zden allq (st_ph G st)) (ocomp G M mul one zden gden sden mden oden (st_out G st)))
+    /\ marks_ok G (st_mk G (loop period st l)) (st_out G (loop period st l)).
 Proof. exact loop_invariant. Qed.
 Print Assumptions C06_eject_z_loop_invariant.
 
+(* a PhasedXZ gate denotes (z rotation) . (x part); the last hypothesis is locality: a Z rotation of a qubit commutes with every
+   emitted operation that does not act on that qubit - what makes "write the final phase into the PhasedXZ gate that is still
+   the last operation on its qubit" the same as appending the Z gate *)
 Theorem C06_eject_z_correct : forall (G M : Type) (mul : M -> M -> M) (one : M),
   (forall a b c, mul a (mul b c) = mul (mul a b) c) -> (forall a, mul one a = a) -> (forall a, mul a one = a) ->
   forall (zden : nat -> Z -> M) (gden : G -> list nat -> list Z -> M) (sden : G -> nat -> nat -> M) (mden oden : G -> list nat -> M)
@@ -118,10 +122,20 @@ Theorem C06_eject_z_correct : forall (G M : Type) (mul : M -> M -> M) (one : M),
   (forall g a b ph, mul (sden g a b) (Phi M mul one zden allq ph) = mul (Phi M mul one zden allq (pswap ph a b)) (sden g a b)) ->
   (forall g qs ph, mul (mden g qs) (Phi M mul one zden allq ph) = mul (Phi M mul one zden allq (preset ph qs)) (mden g qs)) ->
   (forall g qs ph, (forall q, In q qs -> ph q = 0%Z) -> mul (oden g qs) (Phi M mul one zden allq ph) = mul (Phi M mul one zden allq ph) (oden g qs)) ->
+  (forall (o : oop G) q v, ~ touches G o q ->
+     mul (zden q v) (oden' G M mul zden gden sden mden oden o) = mul (oden' G M mul zden gden sden mden oden o) (zden q v)) ->
   forall l, Forall (wf G allq) l ->
     ocomp G M mul one zden gden sden mden oden (eject_z period allq l) = icomp G M mul one zden gden sden mden oden l.
 Proof. exact eject_z_correct. Qed.
 Print Assumptions C06_eject_z_correct.
+
+(* the side condition of the marks is needed: a phase written into a PhasedXZ gate that is followed by another operation on
+   its qubit is not a Z rotation after everything emitted (2x2 integer witness: shear for the rotation, diag(1,-1) behind it) *)
+Theorem C06_eject_z_setz_behind_operation_refuted : exists (out : list (oop nat)) (k q : nat) (v : Z),
+  nth_error out k = Some (OPhXZ 7%nat q 0%Z 0%Z) /\
+  demo_ocomp (setz k v out) <> ezm_mul (demo_zden q v) (demo_ocomp out).
+Proof. exact setz_behind_operation_refuted. Qed.
+Print Assumptions C06_eject_z_setz_behind_operation_refuted.
 
 (* ---- what acceptance by the validator MEANS (Sim/TraceSem.v, Sim/ExecCommProofs.v) ----
    For ANY assignment of matrices to the operations that acts only on an operation's own qubits, the accepted output
